@@ -197,6 +197,29 @@ def run(ctx):
                 else:
                     ctx.ok('C11.1-pairs', inst, 'compares (%s)' % ', '.join(x.rsplit('::', 1)[-1] for x in (res.get('calls') or [])[:2]))
 
+    # an arm that answers by asking the same question the other way round (`other.cmp(self).reverse()`) terminates only if the
+    # swapped pair is answered by a different arm
+    ctx.rule('C11.1-swap-terminates', 'no pair of variants (A,B) is answered by calling the comparator on (B,A) while (B,A) is answered by calling it on (A,B): such a pair recurses until the stack is gone '
+             '(the process aborts - also inside BTreeMap::insert while a map with two such keys is being decoded)', floor=2)
+    for which, T in tabs.items():
+        cmpname = CMP_O if which == 'owned' else CMP_B
+        vs, table = T['variants'], T['table']
+
+        def swaps(res):
+            if res['kind'] != 'compares' or not res.get('args') or len(res['args']) != 2:
+                return False
+            if not any(n == cmpname or n == 'core::cmp::Ord::cmp' for n in (res.get('calls') or [])):
+                return False
+            a0, a1 = res['args']
+            return a0 is not None and a1 is not None and a0[0] == 'ref' and a1[0] == 'ref' and a0[1] == 'O' and a1[1] == 'S'
+        loops = [(a, b) for (a, b), res in table.items() if swaps(res) and swaps(table.get((b, a), {'kind': 'x'}))]
+        if loops:
+            for (a, b) in loops[:8]:
+                ctx.bad('C11.1-swap-terminates', '%s:(%s,%s)' % (which, a, b), 'cmp(%s, %s) is answered by cmp(%s, %s).reverse() and the other way round: comparing two such terms never returns (stack overflow)' % (a, b, b, a),
+                        ctx.where(T['B']), key='PAIRS:%s:(%s,%s):swap-loop' % (cmpname, a, b))
+        else:
+            ctx.ok('C11.1-swap-terminates', which, 'no pair is answered by the swapped call in both directions (%d arms delegate to the swapped pair)' % sum(1 for r in table.values() if swaps(r)), ctx.where(T['B']))
+
     # ---------------- clause 2: mirror consistency ------------------------------------------------------------------
     ctx.rule('C11.2-mirror', 'for every ordered pair (A,B) the arm for (B,A) is its mirror: opposite constants, or a helper defined as the reverse of the other with swapped arguments', floor=130)
     for which, T in tabs.items():
